@@ -17,7 +17,7 @@ using namespace gtry;
 struct Ex { std::string op; int a = 0, b = 0; std::string bits; std::vector<Ex> kids; };
 struct Sel { std::string kind; int a = 0, b = 0; Ex idx; };
 struct St;
-struct Br { int type = 0; /* 0 IF, 1 ELSEIF, 2 ELSE */ Ex c; std::vector<St> body; };
+struct Br { int type = 0; /* 0 IF, 1 ELSEIF, 2 ELSE, 3 ELSE IF (with a space) */ Ex c; std::vector<St> body; };
 struct St { char kind = 0; int x = 0; bool isBit = false; int w = 0; int tmp = 0; Ex e; std::vector<Sel> path; std::vector<Br> brs; };
 struct Pin { bool isBit; int w; };
 struct Prog { std::string id; std::vector<Pin> pins; std::vector<St> body; std::vector<std::vector<std::string>> vecs; };
@@ -66,7 +66,7 @@ static St pStmt(const std::vector<Toks> &L, size_t &li)
 			if (li >= L.size()) die("IF without END");
 			const Toks &m = L[li];
 			if (m[0] == "END") { li++; break; }
-			else if (m[0] == "ELIF") { li++; size_t j = 1; Br e; e.type = 1; e.c = pExpr(m, j); e.body = pBlock(L, li); s.brs.push_back(e); }
+			else if (m[0] == "ELIF" || m[0] == "ELSP") { li++; size_t j = 1; Br e; e.type = (m[0] == "ELIF") ? 1 : 3; e.c = pExpr(m, j); e.body = pBlock(L, li); s.brs.push_back(e); }
 			else if (m[0] == "ELSE") { li++; Br e; e.type = 2; e.body = pBlock(L, li); s.brs.push_back(e); if (li >= L.size() || L[li][0] != "END") die("ELSE without END"); li++; break; }
 			else die("chain marker " + m[0]);
 		}
@@ -79,7 +79,7 @@ static std::vector<St> pBlock(const std::vector<Toks> &L, size_t &li)
 	std::vector<St> r;
 	while (li < L.size()) {
 		const std::string &k = L[li][0];
-		if (k == "ELIF" || k == "ELSE" || k == "END") break;
+		if (k == "ELIF" || k == "ELSP" || k == "ELSE" || k == "END") break;
 		r.push_back(pStmt(L, li));
 	}
 	return r;
@@ -102,7 +102,9 @@ struct Builder {
 	{
 		Val r;
 		if (e.op == "in") {
-			if (pinBits[e.a]) r.b.reset(new Bit(*pinBits[e.a])); else r.u.reset(new UInt(*pinVecs[e.a]));
+			// a named copy of the pin: every evaluation is a fresh signal node (the model's NIn node)
+			if (pinBits[e.a]) { r.b.reset(new Bit(*pinBits[e.a])); r.b->setName("i" + std::to_string(e.a)); }
+			else { r.u.reset(new UInt(*pinVecs[e.a])); r.u->setName("i" + std::to_string(e.a)); }
 		} else if (e.op == "cu") {
 			std::string s = std::to_string(e.bits.size()) + "b" + e.bits;
 			r.u.reset(new UInt(s.c_str()));
@@ -193,6 +195,12 @@ struct Builder {
 					Val c = eval(br.c);
 					// ELSEIF(x) without its leading  else { HCL_ASSERT(false); }
 					if (gtry::ConditionalScope ___condScope{ConditionalScope::ElseCase{}, *c.b}) { runBlock(br.body); popVars(mark); }
+				} else if (br.type == 3) {
+					// ELSE IF (x) { .. }  written with a space: the IF scope lives inside the ELSE scope
+					if (gtry::ConditionalScope ___condScope{ConditionalScope::ElseCase{}}) {
+						Val c = eval(br.c);
+						IF (*c.b) { runBlock(br.body); popVars(mark); }
+					}
 				} else {
 					// ELSE
 					if (gtry::ConditionalScope ___condScope{ConditionalScope::ElseCase{}}) { runBlock(br.body); popVars(mark); }
